@@ -87,7 +87,7 @@ def run(run: Run, pkg: Package) -> None:
     if ok is False and tr.atoms:
         ok = None
     run.ob("R-ALG", fq_init, "maxbin", ok, "number of bins is int(L_min / (2 rdelta))", f"code: {sp.sstr(got)[:120]}; {how}",
-           witness=None if ok else how, loc=init_loc)
+           witness=None if ok else how, loc=init_loc, sound=True)
     for name, refexpr, what in [("rhototal", sN / sV, "total density N/V"), ("boxvolume", sV, "volume = prod(boxlength of frame 0)"),
                                 ("nparticle", sN, "N of frame 0"), ("nsnapshots", sT, "number of frames"), ("ndim", sd, "dimension from positions.shape[1]")]:
         if name in attrs:
@@ -97,7 +97,7 @@ def run(run: Run, pkg: Package) -> None:
             if ok is False and tr.atoms:
                 ok = None
             run.ob("R-ALG", fq_init, name, ok, f"self.{name} is the {what}", f"code: {sp.sstr(g)[:120]}; {how}",
-                   witness=None if ok else how, loc=init_loc)
+                   witness=None if ok else how, loc=init_loc, sound=True)
     # nidealfac table
     check_dim_table(run, pkg, "utils.funcs.nidealfac", {3: sp.Rational(4, 3), 2: sp.Integer(1)},
                     "ideal-shell prefactor: 4/3 (3D), 1 (2D) so that nidealfac*pi*(r_hi^d - r_lo^d) is the shell volume / area")
@@ -120,11 +120,11 @@ def check_dim_table(run, pkg, qual, table, what):
             return None
         sel = [r for r in it.returns if guard_eval(r.guards, lambda c: eval_bool(c, leaf)) is True]
         if len(sel) != 1:
-            run.ob("R-DISPATCH", fq, f"d={dim}", None if it.returns else False, what, f"{len(sel)} returns selected", loc=it.fi.loc())
+            run.ob("R-DISPATCH", fq, f"d={dim}", None, what, f"{len(sel)} returns selected", loc=it.fi.loc())
             continue
         ok, how = S.decide_equal(S.to_sympy(sel[0].data["value"]), val)
         run.ob("R-DISPATCH", fq, f"d={dim}", ok, f"{what}: value for d={dim} is {val}", f"code returns {show(sel[0].data['value'])}",
-               witness=None if ok else f"{fq}({dim}) = {show(sel[0].data['value'])}", loc=loc_of(it, sel[0]))
+               witness=None if ok else f"{fq}({dim}) = {show(sel[0].data['value'])}", loc=loc_of(it, sel[0]), sound=True)
     # other dimensions must not silently return a number
 
     def leaf_other(c):
@@ -132,7 +132,7 @@ def check_dim_table(run, pkg, qual, table, what):
             return False
         return None
     sel = [r for r in it.returns if guard_eval(r.guards, lambda c: eval_bool(c, leaf_other)) is True]
-    run.ob("R-DISPATCH", fq, "d=other", (not sel) and not it.falls_through, "dimensions other than 2, 3 are rejected",
+    run.ob("R-DISPATCH", fq, "d=other", True if ((not sel) and not it.falls_through) else None, "dimensions other than 2, 3 are rejected",
            "a value is returned" if sel else ("falls through" if it.falls_through else "raises"),
            witness=None if not sel and not it.falls_through else "d=4", loc=it.fi.loc())
 
@@ -152,20 +152,22 @@ def analyse_method(run, pkg, K, m, attrs, ex):
     colnames = [c[1] for c in cols[1]]
     want_cols = ["r", "gr"] + [f"gr{a}{a}" for a in range(1, K + 1) if K > 1] + \
                 [f"gr{a}{b}" for a in range(1, K + 1) for b in range(a + 1, K + 1)]
-    okc = set(colnames) == set(want_cols)
+    okc = True if set(colnames) == set(want_cols) else (False if set(want_cols) - set(colnames) else None)     # literal column list compared with the K(K+1)/2 partials
     run.ob("R-SEL", fq, "declared-columns", okc, f"{K}-species result declares r, gr and all {K*(K+1)//2 if K>1 else 0} partial columns",
            f"declared {colnames}", witness=None if okc else f"missing {sorted(set(want_cols)-set(colnames))} extra {sorted(set(colnames)-set(want_cols))}",
-           loc=fi.loc())
+           loc=fi.loc(), sound=True)
     idx = kw(df, "index")
-    ok_idx = idx is not None and ex(idx) == ex(("call", "builtins.range", (attrs["maxbin"],), ()))
+    ok_idx = eqv(ex(idx), ex(("call", "builtins.range", (attrs["maxbin"],), ()))) if idx is not None else None
     run.ob("R-ALG", fq, "rows", ok_idx, "one row per bin: index = range(maxbin)", f"index = {show(idx)[:80] if idx else None}",
-           witness=None if ok_idx else "row count differs from bin count", loc=fi.loc())
+           witness=None if ok_idx else "row count differs from bin count", loc=fi.loc(), sound=True)
 
     acc, post = {}, {}
     for ev in stores(it):
         tg = ev.data["target"]
         if tg[0] == "sub" and tg[1] == df and is_const(tg[2]):
             (acc if ev.loops else post).setdefault(tg[2][1], []).append(ev)
+    # every write to the frame has a literal column name (otherwise "never written" cannot be concluded)
+    const_keys_only = all(is_const(e_.data["target"][2]) for e_ in stores(it) if e_.data["target"][0] == "sub" and e_.data["target"][1] == df)
     # ---------------- loop structure
     loops = sorted({l for evs in acc.values() for e in evs for l in e.loops})
     if len(loops) != 2:
@@ -173,18 +175,29 @@ def analyse_method(run, pkg, K, m, attrs, ex):
     Lf, Lp = it.loops[loops[0]], it.loops[loops[1]]
     snap = Lf.target
     ivar = Lp.target
-    ok_f = ex(Lf.iter) == ("attr", SN, "snapshots")
+    ok_f = eqv(ex(Lf.iter), ("attr", SN, "snapshots"))
     run.ob("R-LOOPDOM", fq, "frames", ok_f, "outer loop visits every snapshot of the trajectory", f"iterates {show(ex(Lf.iter))[:80]}",
-           witness=None if ok_f else "frames skipped or foreign list", loc=fi.loc(Lf.node))
+           witness=None if ok_f else "frames skipped or foreign list", loc=fi.loc(Lf.node), sound=True)
     pit = ex(Lp.iter)
     ok_p = pit in (("call", "builtins.range", (("bin", "-", N_, C(1)),), ()), ("call", "builtins.range", (N_,), ()))
     if not ok_p and pit[0] == "call" and pit[1] == "builtins.range":
         a = pit[2]
         if len(a) == 1 and a[0] in (("bin", "-", ("attr", snap, "nparticle"), C(1)), ("attr", snap, "nparticle")):
             ok_p = True
-    run.ob("R-LOOPDOM", fq, "centres", ok_p if ok_p else (False if pit[0] == "call" and pit[1] == "builtins.range" else None),
+    okp_ = True if ok_p else None
+    if not ok_p and pit[0] == "call" and pit[1] == "builtins.range" and len(pit[2]) == 1:
+        # range(N + c) with an integer c other than 0 / -1: a centre is skipped or the index overruns
+        Nsym = sp.Symbol("N", integer=True)
+        trp = S.Translator(lambda t: Nsym if t in (N_, ("attr", snap, "nparticle")) else None)
+        try:
+            dlt = sp.expand(trp.tr(pit[2][0]) - Nsym)
+            if not trp.atoms and dlt.is_Integer and dlt not in (0, -1):
+                okp_ = False
+        except Exception:  # noqa
+            pass
+    run.ob("R-LOOPDOM", fq, "centres", okp_,
            "centre index i runs over range(N-1) (with j > i: every unordered pair once)", f"iterates {show(pit)[:80]}",
-           witness=None if ok_p else f"i in {show(pit)[:60]}", loc=fi.loc(Lp.node))
+           witness=None if ok_p else f"i in {show(pit)[:60]}", loc=fi.loc(Lp.node), sound=True)
 
     # species must be read from the frame whose pairs are being counted
     foreign = set()
@@ -196,16 +209,25 @@ def analyse_method(run, pkg, K, m, attrs, ex):
                     if bx[0] == "attr" and bx[2] == "particle_type" and bx[1] != snap:
                         foreign.add(x[1])
     if K > 1:
-        run.ob("R-SEL", fq, "type-source", not foreign, "species ids in the selectors are read from the frame being processed",
+        # definite only for a fixed frame of the trajectory (constant index) while the pairs come from the loop's frame
+        fixed_foreign = [x for x in foreign if (lambda bx: bx[1][0] == "sub" and is_const(bx[1][2]) and not any(y[0] in ("loopvar", "mu", "elem") for y in walk(bx[1])))(ex(x))]
+        run.ob("R-SEL", fq, "type-source", True if not foreign else (False if fixed_foreign else None), "species ids in the selectors are read from the frame being processed",
                ", ".join(show(ex(x))[:60] for x in foreign) if foreign else show(("attr", snap, "particle_type"))[:50],
                witness=None if not foreign else "two frames in which particles exchange species at fixed composition: frame 1's pairs are sorted into the columns of frame 0's species",
-               loc=fi.loc())
+               loc=fi.loc(), sound=True)
     type_of = make_type_of(snap, ivar, also=tuple(foreign))
     want_bins = ex(attrs["maxbin"])
     want_range = ("tuple", (C(0), ("bin", "*", want_bins, ("sym", "rdelta"))))
 
     def edges_ok(call):
         return ex(kw(call, "bins", 1) or NONE) == want_bins and range_ok(ex(kw(call, "range", 2) or NONE))
+
+    def range_tri(r):
+        if r == want_range:
+            return True
+        if r[0] == "tuple" and len(r[1]) == 2:
+            return tri(eqv(r[1][0], C(0), C(0.0), same=True), S.decide_equal(S.to_sympy(r[1][1]), S.to_sympy(want_range[1][1]))[0])
+        return None
 
     def range_ok(r):
         if r == want_range:
@@ -226,16 +248,15 @@ def analyse_method(run, pkg, K, m, attrs, ex):
                        loc=loc_of(it, ev))
                 continue
             hi = hist_info(v[1])
-            okb = ex(hi["bins"] or NONE) == want_bins
+            okb = eqv(ex(hi["bins"] or NONE), want_bins)
             run.ob("R-ALG", fq, f"{col}:bins", okb, f"histogram for {col} uses maxbin bins", f"bins = {show(hi['bins'])[:60] if hi['bins'] else None}",
-                   witness=None if okb else "bin count differs from the row count / other columns", loc=loc_of(it, ev))
-            okr = range_ok(ex(hi["range"] or NONE))
+                   witness=None if okb else "bin count differs from the row count / other columns", loc=loc_of(it, ev), sound=True)
+            okr = range_tri(ex(hi["range"] or NONE))
             run.ob("R-ALG", fq, f"{col}:range", okr, f"histogram for {col} spans (0, maxbin*rdelta)",
                    f"range = {show(hi['range'])[:80] if hi['range'] else None}",
-                   witness=None if okr else "bin edges differ from r_k = k*rdelta", loc=loc_of(it, ev))
+                   witness=None if okr else "bin edges differ from r_k = k*rdelta", loc=loc_of(it, ev), sound=True)
             if hi["weights"] is not None:
-                run.ob("R-SEL", fq, f"{col}:weights", False, f"column {col} counts pairs (no weights)", show(hi["weights"])[:80],
-                       witness="weighted counts in g(r)", loc=loc_of(it, ev))
+                run.ob("R-SEL", fq, f"{col}:weights", None, f"column {col} counts pairs (no weights)", show(hi["weights"])[:80], loc=loc_of(it, ev))
             # distance provenance
             inner = is_rowwise_norm(hi["data"]) if hi["data"] is not None else None
             pa = pbc_args(inner) if inner is not None else None
@@ -246,16 +267,17 @@ def analyse_method(run, pkg, K, m, attrs, ex):
                        f"not recognised: {show(hi['data'])[:100] if hi['data'] else None}", loc=loc_of(it, ev))
             else:
                 kinds = {index_kind(pdiff["left"], ivar), index_kind(pdiff["right"], ivar)}
-                ok_al = pdiff["snap"] == snap and kinds == {"i", "after_i"}
+                known = all(k_ in ("i", "after_i", "all") for k_ in kinds)
+                ok_al = tri(eqv(pdiff["snap"], snap), True if kinds == {"i", "after_i"} else (False if known else None))
                 run.ob("R-ALIGN", fq, f"{col}:pairs", ok_al, "distances are between centre i and particles j > i of the same frame",
                        f"difference of positions[{show(pdiff['left'])}] and positions[{show(pdiff['right'])}] of {show(pdiff['snap'])}",
-                       witness=None if ok_al else "pair set is not {(i, j): j > i}", loc=loc_of(it, ev))
-                ok_h = pa[1] == ("attr", snap, "hmatrix")
+                       witness=None if ok_al else "pair set is not {(i, j): j > i}", loc=loc_of(it, ev), sound=True)
+                ok_h = eqv(ex(pa[1]), ("attr", snap, "hmatrix"))
                 run.ob("R-PBC", fq, f"{col}:cell", ok_h, "minimum image uses the cell matrix of the same snapshot",
-                       f"hmatrix argument {show(pa[1])[:60]}", witness=None if ok_h else "cell of another frame / object", loc=loc_of(it, ev))
-                ok_m = pa[2] is not None and ex(pa[2]) == ("sym", "ppp")
+                       f"hmatrix argument {show(pa[1])[:60]}", witness=None if ok_h else "cell of another frame / object", loc=loc_of(it, ev), sound=True)
+                ok_m = eqv(ex(pa[2]), ("sym", "ppp")) if pa[2] is not None else False
                 run.ob("R-PBC", fq, f"{col}:mask", ok_m, "minimum image uses the instance's periodicity mask",
-                       f"ppp argument {show(pa[2])[:60] if pa[2] else 'default'}", witness=None if ok_m else "mask not forwarded", loc=loc_of(it, ev))
+                       f"ppp argument {show(pa[2])[:60] if pa[2] else 'default'}", witness=None if ok_m else "mask not forwarded", loc=loc_of(it, ev), sound=True)
             if inner is None and hi["mask"] is None:
                 # the histogrammed data is not recognised as the bare distance array: a selection may be hidden in it
                 masks.setdefault(col, []).append((("unknown", "selection hidden in " + show(hi["data"])[:50] if hi["data"] else "?"), ev))
@@ -264,18 +286,18 @@ def analyse_method(run, pkg, K, m, attrs, ex):
     # total unmasked
     for mk, ev in masks.get("gr", []):
         unk = mk is not None and mk[0] == "unknown"
-        run.ob("R-SEL", fq, "gr:unmasked", None if unk else (mk is None), "the total column counts every pair", f"mask {show(mk)[:80] if mk else None}",
+        run.ob("R-SEL", fq, "gr:unmasked", True if (mk is None and not unk) else None, "the total column counts every pair", f"mask {show(mk)[:80] if mk else None}",
                witness=None if (mk is None or unk) else "total restricted by a selector", loc=loc_of(it, ev))
     if "gr" not in masks:
-        run.ob("R-SEL", fq, "gr:unmasked", False, "the total column is accumulated", "no accumulation found", witness="gr never filled", loc=fi.loc())
+        run.ob("R-SEL", fq, "gr:unmasked", False if const_keys_only and "gr" not in post else None, "the total column is accumulated", "no accumulation found", witness="gr never filled", loc=fi.loc(), sound=True)
     # ---------------- exhaustive pair classification
     partial = [c for c in want_cols if c not in ("r", "gr")]
     misaligned = {}
     if K > 1:
         for c in partial:
             if c not in masks:
-                run.ob("R-SEL", fq, f"{c}:filled", False, f"partial column {c} is accumulated", "no accumulation site", witness=f"{c} stays 0",
-                       loc=fi.loc())
+                run.ob("R-SEL", fq, f"{c}:filled", False if const_keys_only else None, f"partial column {c} is accumulated", "no accumulation site", witness=f"{c} stays 0",
+                       loc=fi.loc(), sound=True)     # the only writes to the frame are the literal-key stores, none of them fills this column
         for ta in range(1, K + 1):
             for tb in range(1, K + 1):
                 hit = []
@@ -303,17 +325,16 @@ def analyse_method(run, pkg, K, m, attrs, ex):
                 else:
                     ok = hit == [want]
                     run.ob("R-SEL", fq, key, ok, f"centre species {ta}, neighbour species {tb} is counted in exactly {want}",
-                           f"selected columns: {hit}", witness=None if ok else f"type_i={ta}, type_j={tb} -> {hit or 'no column'}", loc=fi.loc())
+                           f"selected columns: {hit}", witness=None if ok else f"type_i={ta}, type_j={tb} -> {hit or 'no column'}", loc=fi.loc(), sound=True)   # finite evaluation of every selector on this species pair
         for c, (w, ev) in misaligned.items():
             run.ob("R-ALIGN", fq, f"{c}:types", False, "species ids in the selector belong to the same particles as the distances", w,
-                   witness=w, loc=loc_of(it, ev))
+                   witness=w, loc=loc_of(it, ev), sound=True)
     # ---------------- normalisation
     last_post_seq = -1
     for col in want_cols:
         evs = post.get(col, [])
         if len(evs) != 1:
-            run.ob("R-ALG", fq, f"{col}:norm", None if evs else False, f"column {col} is normalised exactly once after the loops",
-                   f"{len(evs)} assignments", witness=None if evs else f"{col} left as raw counts", loc=fi.loc())
+            run.ob("R-ALG", fq, f"{col}:norm", None, f"column {col} is normalised exactly once after the loops", f"{len(evs)} assignments", loc=fi.loc())
             continue
         ev = evs[0]
         last_post_seq = max(last_post_seq, ev.seq)
@@ -341,8 +362,8 @@ def analyse_method(run, pkg, K, m, attrs, ex):
         # the count read must be of the same column
         reads = {x[2][1] for x in walk(val) if x[0] == "sub" and x[1] in (df, ex(df)) and is_const(x[2])}
         if col != "r" and reads != {col}:
-            run.ob("R-ALG", fq, f"{col}:norm", False if reads else None, what, f"normalises counts read from {sorted(reads)}",
-                   witness=f"{col} computed from column(s) {sorted(reads)}", loc=loc_of(it, ev))
+            run.ob("R-ALG", fq, f"{col}:norm", False if (reads and reads <= set(want_cols)) else None, what, f"normalises counts read from {sorted(reads)}",
+                   witness=f"{col} computed from the counts of column(s) {sorted(reads)}", loc=loc_of(it, ev), sound=True)
             continue
         # uniform bins (bins / range verified above): r_lo = r_hi - rdelta
         check_algebra(run, "R-ALG", it, f"{col}:norm", what, val, ref, atom_of, loc_of(it, ev), positive=True,
@@ -352,10 +373,12 @@ def analyse_method(run, pkg, K, m, attrs, ex):
     for e in saves:
         call = e.data["call"]
         ok = call[2][0] == df and len(call[2]) >= 2 and ex(call[2][1]) == ("sym", "outputfile") and e.seq > last_post_seq
+        early = call[2][0] == df and e.seq < last_post_seq and not e.loops
+        ok = True if ok else (False if early else None)       # the returned frame itself is written while normalisations are still to come
         run.ob("R-SAVE", fq, "csv", ok, "the CSV is written from the returned frame, to outputfile, after normalisation",
-               f"{show(call)[:100]}", witness=None if ok else "file content differs from returned values", loc=loc_of(it, e))
+               f"{show(call)[:100]}", witness=None if ok else "file content differs from returned values", loc=loc_of(it, e), sound=True)
     if not saves:
-        run.ob("R-SAVE", fq, "csv", False, "outputfile request is honoured", "no to_csv call", witness="outputfile ignored", loc=fi.loc())
+        run.ob("R-SAVE", fq, "csv", None, "outputfile request is honoured", "no to_csv call", loc=fi.loc())
 
 
 def check_dispatch(run, pkg, attrs):
@@ -363,10 +386,10 @@ def check_dispatch(run, pkg, attrs):
     fq = short(it.fi.qual)
     nk = ("call", "builtins.len", (("attr", ("sym", "self"), "typenumber"),), ())
     tn = attrs.get("typenumber")
-    ok_tn = tn == TYPENUMBER
+    ok_tn = eqv(tn, TYPENUMBER)
     run.ob("R-DISPATCH", short(pkg.cls(CLS).methods["__init__"].qual), "typenumber", ok_tn,
            "species are the distinct type ids of frame 0", f"typenumber = {show(tn)[:100] if tn else None}",
-           witness=None if ok_tn else "species count taken from something else")
+           witness=None if ok_tn else "species count taken from something else", sound=True)
     for K in range(1, 8):
         def leaf(c, K=K):
             if c[0] == "cmp" and is_const(c[3]) and expand_back(c[2]) == nk:
@@ -385,10 +408,12 @@ def check_dispatch(run, pkg, attrs):
             continue
         if not sel:
             run.ob("R-DISPATCH", fq, key, False, f"{K} species are dispatched to gr.{want}", "falls through: returns None",
-                   witness=f"{K} distinct type ids", loc=it.fi.loc())
+                   witness=f"{K} distinct type ids", loc=it.fi.loc(), sound=True)      # every guard decided for this K, no return selected
             continue
         val = sel[0].data["value"]
         ok = val[0] == "call" and val[1] == pkg.cls(CLS).methods[want].qual
+        others = {pkg.cls(CLS).methods[m_].qual for m_ in METHODS.values() if m_ != want}
+        ok = True if ok else (False if (val[0] == "call" and val[1] in others) else None)
         run.ob("R-DISPATCH", fq, key, ok, f"{K} species are dispatched to gr.{want}" + (" (total only)" if K > 5 else ""),
-               f"returns {show(val)[:80]}", witness=None if ok else f"{K} distinct type ids -> {show(val)[:60]}", loc=loc_of(it, sel[0]))
+               f"returns {show(val)[:80]}", witness=None if ok else f"{K} distinct type ids -> {show(val)[:60]}", loc=loc_of(it, sel[0]), sound=True)
     run.minimum("R-DISPATCH", 7)
